@@ -68,6 +68,10 @@ def assignments(f, rng, dbx, quick):
         # codes above the database range but still representable (reserved / error codes)
         if hi_db + 1 <= top:
             yield "reserved_code", val(top), None, "either"
+        # strictly between the largest legal code and the not-available code: rounds onto one of the two
+        yield "just_above_top_0.3", val(top, 0.3), None, "either"
+        yield "just_above_top_0.7", val(top, 0.7), None, "reject"
+        yield "just_below_min_0.7", val(smin - 1, 0.3), None, "reject"
         yield "one_step_above_representable", val(na), None, "reject"
         yield "two_steps_above_representable", val(na + 1), None, "reject"
         yield "one_step_below_representable", val(smin - 1), None, "reject"
